@@ -1,6 +1,7 @@
 package c10
 
 import (
+	"bytes"
 	"fmt"
 	"io"
 	"log/slog"
@@ -13,7 +14,9 @@ import (
 	"time"
 
 	"github.com/prometheus/client_golang/prometheus"
+	"google.golang.org/protobuf/encoding/protodelim"
 	"google.golang.org/protobuf/proto"
+	"google.golang.org/protobuf/types/known/timestamppb"
 
 	"github.com/prometheus/alertmanager/cluster"
 	"github.com/prometheus/alertmanager/cluster/clusterpb"
@@ -362,5 +365,146 @@ func TestGCBoundaries(t *testing.T) {
 			}
 		})
 		sub.Case(vf.Digest(sub.Seed(i)), sameSecond)
+	})
+}
+
+// TestRefusedLogLeavesLogIntact: a Log call that returns an error (the entry cannot be encoded: a
+// receiver-data string that is not valid UTF-8, which the wire format refuses) has not happened: Query
+// still returns the entry that was there before, and the log can still be snapshotted, exchanged and
+// loaded back.
+func TestRefusedLogLeavesLogIntact(t *testing.T) {
+	run := vf.Cur()
+	sub := run.Sub("refused-log-leaves-log-intact", "real notification log holding entries for 1-3 keys; a Log call for one of them (or for a new key) whose receiver data holds a string that is not valid UTF-8 must return an error - and then Query for every key returns exactly what it returned before, Snapshot and MarshalBinary succeed, and a fresh log loaded from that snapshot returns the same entries; non-trivial = the call was refused; distinct by (seed)", 20)
+	n := run.N(60, 3000)
+	vf.Parallel(t, n, 16, func(t *testing.T, i int) {
+		r := sub.Rand(i)
+		l, _, err := newLog(nil)
+		if err != nil {
+			t.Fatal(err)
+		}
+		base := time.Now()
+		nk := 1 + r.Intn(3)
+		for k := 0; k < nk; k++ {
+			st := nflog.NewStore(nil)
+			st.SetStr("s", fmt.Sprintf("v%d", k))
+			if err := l.Log(receivers[k%len(receivers)], groupKeys[k%len(groupKeys)], []uint64{uint64(k + 1)}, nil, st, 0); err != nil {
+				t.Fatal(err)
+			}
+			time.Sleep(time.Millisecond)
+		}
+		state := func(x *nflog.Log) string {
+			var out []string
+			for _, gk := range groupKeys {
+				for _, rc := range receivers {
+					if es, err := x.Query(nflog.QGroupKey(gk), nflog.QReceiver(rc)); err == nil && len(es) == 1 {
+						out = append(out, render(es[0], base))
+					}
+				}
+			}
+			sort.Strings(out)
+			return strings.Join(out, "\n")
+		}
+		before := state(l)
+		bad := nflog.NewStore(nil)
+		bad.SetStr("s", gen.Pick(r, []string{"thread \xff\xfe", "\xc3\x28", "ok-prefix\xed\xa0\x80"}))
+		target := r.Intn(nk + 1) // an existing key, or a new one
+		err = l.Log(receivers[target%len(receivers)], groupKeys[target%len(groupKeys)], []uint64{99}, []uint64{98}, bad, 0)
+		sub.Case(vf.Digest(sub.Seed(i)), err != nil)
+		if err == nil {
+			sub.Count("calls_accepted", 1)
+			return
+		}
+		sub.Count("calls_refused", 1)
+		w := map[string]any{"seed": sub.Seed(i), "error_returned_by_log": err.Error(), "before": strings.Split(before, "\n")}
+		if after := state(l); after != before {
+			w["after"] = strings.Split(after, "\n")
+			sub.Violation("refused-log-call-changed-the-log", w)
+			return
+		}
+		var snap bytes.Buffer
+		if _, err := l.Snapshot(&snap); err != nil {
+			w["snapshot_error"] = err.Error()
+			sub.Violation("log-cannot-be-snapshotted-after-a-refused-call", w)
+			return
+		}
+		if _, err := l.MarshalBinary(); err != nil {
+			w["full_state_error"] = err.Error()
+			sub.Violation("log-cannot-be-exchanged-after-a-refused-call", w)
+			return
+		}
+		l2, _, err := newLog(snap.Bytes())
+		if err != nil {
+			w["load_error"] = err.Error()
+			sub.Violation("snapshot-taken-after-a-refused-call-does-not-load", w)
+			return
+		}
+		if got := state(l2); got != before {
+			w["loaded"] = strings.Split(got, "\n")
+			sub.Violation("snapshot-taken-after-a-refused-call-differs", w)
+		}
+	})
+}
+
+// TestLogRacesMerge: "an older entry never overwrites a newer one" - also when the local Log call and
+// the merge of a peer's newer entry for the same key run at the same time on two goroutines. The peer's
+// entry is stamped an hour ahead (its clock runs ahead), so whichever of the two calls comes first, the
+// log must hold the peer's entry afterwards: a Log that comes second refuses to overwrite an entry from
+// the future, a merge that comes second wins by its timestamp.
+func TestLogRacesMerge(t *testing.T) {
+	run := vf.Cur()
+	sub := run.Sub("log-races-merge", "real notification log, real goroutines (race detector in the race pass); per round a Log call for key K with 50000-400000 firing hashes (encoding it takes a moment) runs concurrently with the Merge of a peer's entry for K stamped one hour ahead, the merge being released 0-3 ms after the Log call was started; afterwards Query(K) must return the peer's entry; 40 rounds per case; non-trivial = every case; distinct by (seed)", 4)
+	n := run.N(6, 200)
+	rounds := 40
+	if vf.RaceEnabled {
+		rounds = 12
+	}
+	vf.Parallel(t, n, 4, func(t *testing.T, i int) {
+		r := sub.Rand(i)
+		for round := 0; round < rounds; round++ {
+			l, _, err := newLog(nil)
+			if err != nil {
+				t.Fatal(err)
+			}
+			rc := receivers[0]
+			const K = "{}:{alertname=\"K\"}"
+			now := time.Now()
+			peer := &pb.MeshEntry{Entry: &pb.Entry{Receiver: rc, GroupKey: []byte(K), Timestamp: timestamppb.New(now.Add(time.Hour)), FiringAlerts: []uint64{7}}, ExpiresAt: timestamppb.New(now.Add(90 * time.Minute))}
+			var buf bytes.Buffer
+			if _, err := protodelim.MarshalTo(&buf, peer); err != nil {
+				t.Fatal(err)
+			}
+			firing := make([]uint64, 50000+r.Intn(350000))
+			for k := range firing {
+				firing[k] = uint64(k) + 1000
+			}
+			delay := time.Duration(r.Intn(3000)) * time.Microsecond
+			var wg sync.WaitGroup
+			wg.Add(2)
+			started := make(chan struct{})
+			go func() {
+				defer wg.Done()
+				close(started)
+				l.Log(rc, K, firing, nil, nil, 0)
+			}()
+			go func() {
+				defer wg.Done()
+				<-started
+				for t0 := time.Now(); time.Since(t0) < delay; {
+				}
+				l.Merge(buf.Bytes())
+			}()
+			wg.Wait()
+			sub.Count("rounds", 1)
+			es, err := l.Query(nflog.QGroupKey(K), nflog.QReceiver(rc))
+			if err != nil || len(es) != 1 || len(es[0].FiringAlerts) != 1 || es[0].FiringAlerts[0] != 7 {
+				got := "not found"
+				if len(es) == 1 {
+					got = fmt.Sprintf("entry stamped %s with %d firing hashes", es[0].Timestamp.AsTime().Sub(now).Round(time.Millisecond), len(es[0].FiringAlerts))
+				}
+				sub.Violation("newer-entry-from-a-peer-overwritten-by-a-concurrent-local-log-call", map[string]any{"seed": sub.Seed(i), "round": round, "merge_released_after": delay.String(), "log_holds": got, "expected": "the peer's entry stamped +1h"})
+				return
+			}
+		}
+		sub.Case(vf.Digest(sub.Seed(i)), true)
 	})
 }
